@@ -87,6 +87,7 @@ class Sim:
         self.step_no = -1
         self.emissions: list = []  # (step, payload, structure_ok)
         self.n_subs = world.get("subscribers", 1)
+        self.sibling = self._build_sibling() if world.get("sibling") else None
         self.tracks = worldmod.build(world)
         self._connect()
         self.with_seg = self.tracks.segmentation is not None
@@ -112,6 +113,59 @@ class Sim:
         self.count("cfg_ids_" + world["ids"])
         if not world["nodes"]:
             self.count("cfg_empty_start")
+
+    # ---------------------------------------------------------------- sibling instance
+    def _build_sibling(self):
+        """A second SolutionTracks in the same process, started from an empty graph and
+        edited through the public API before the session's own object is built."""
+        from funtracks.data_model import SolutionTracks
+        from funtracks.user_actions import UserAddEdge, UserAddNode
+
+        w = self.world
+        seg = np.zeros(tuple(w["shape"]), dtype=np.dtype(w["dtype"])) if w["seg"] else None
+        sib = SolutionTracks(nx.DiGraph(), segmentation=seg, ndim=w["ndim"], scale=None if w["scale"] is None else list(w["scale"]))
+        for i, t in enumerate(range(min(3, w["shape"][0]))):
+            attrs = {sib.features.time_key: t, sib.features.tracklet_key: 1}
+            px = None
+            if seg is not None:
+                px = (np.array([t]), *[np.array([0]) for _ in w["shape"][1:]])
+            else:
+                attrs[sib.features.position_key] = [0.0] * (w["ndim"] - 1)
+            UserAddNode(sib, 1 + i, attrs, pixels=px)
+        if min(3, w["shape"][0]) >= 2:
+            UserAddNode(sib, 9, {sib.features.time_key: 1, sib.features.tracklet_key: 2, **({} if seg is not None else {sib.features.position_key: [1.0] * (w["ndim"] - 1)})},
+                        pixels=None if seg is None else (np.array([1]), *[np.array([1]) for _ in w["shape"][1:]]))
+            UserAddEdge(sib, (1, 9))
+        self.sibling_canon = observe.canon(sib)
+        self.sibling_deep = observe.deep(sib)
+        return sib
+
+    def check_sibling(self, when):
+        """The sibling was not touched by this session: it must be exactly as it was, and
+        its own lookups must still agree with its own graph."""
+        sib = self.sibling
+        if sib is None or self.violations:
+            return
+        res = []
+        if self.active("C06"):
+            res += oracles.lookups(sib)
+        if self.active("C04"):
+            res += oracles.track_partition(sib)
+        if self.active("C05"):
+            res += oracles.lineage_partition(sib)
+        if self.active("C07"):
+            res += oracles.seg_correspondence(sib)
+        for o, m in res:
+            self.violate(o.split(".")[0], o, f"second solution object in the same process ({when}): {m}", {"op": when}, ["sibling"])
+            return
+        own = self.opts.get("own")
+        if own in ("C04", "C05", "C06", "C07", "C16", "C11"):
+            dd = observe.deep_diff(self.sibling_deep, observe.deep(sib))
+            if dd:
+                oracle = {"C04": "C04.frame", "C05": "C05.frame", "C06": "C06.lookup", "C07": "C07.label_node", "C16": "C16.query", "C11": "C11.state"}[own]
+                self.violate(own, oracle, f"editing one solution changed another solution object in the same process ({when}): {dd[:2]}", {"op": when}, ["sibling"])
+                return
+        self.count("sibling_checked")
 
     # ---------------------------------------------------------------- plumbing
     def count(self, name, n=1):
@@ -1753,9 +1807,13 @@ class Sim:
         for o, m in checks:
             self.violate(o.split(".")[0], o, "after construction: " + m, op, ["init"])
             break
+        self.check_sibling("init")
 
     def finish(self):
         if self.violations or self.aborted:
+            return
+        self.check_sibling("finish")
+        if self.violations:
             return
         if self.active("C02") and self.opts.get("drain", True):
             self.drain()
